@@ -301,7 +301,16 @@ class World:
 
     # ------------------------------------------------------------------ generic ops
     def build(self, k):
-        return call(specmod.build, self.specs[k])
+        # with the knob vary_label_order every other construction writes Label / UntypedLabel keys in another order
+        self._nbuilds = getattr(self, "_nbuilds", 0) + 1
+        mode = ["spec", "reversed", "sorted"][self._nbuilds % 3] if self.case.get("vary_label_order") else "spec"
+        specmod.BUILD_OPTS["label_order"] = mode
+        if mode != "spec":
+            self.bump("probe_label_order_varied")
+        try:
+            return call(specmod.build, self.specs[k])
+        finally:
+            specmod.BUILD_OPTS["label_order"] = "spec"
 
     def ship(self, obj, wire, name="f"):
         """Move an aggregator through a transport; returns Outcome(new object)."""
@@ -320,6 +329,11 @@ class World:
             if not o.ok:
                 return o
             self.bump("wire_json")
+            if self.case.get("json_sort_keys"):
+                # a transport that writes canonical JSON (sorted keys): same document, other order of the members
+                import json as _json
+
+                return call(lambda: hg.Factory.fromJson(_json.loads(_json.dumps(o.value, sort_keys=True))))
             return call(hg.Factory.fromJson, o.value)
         if wire == "jsonstr":
             o = call(obj.toJsonString)
